@@ -67,6 +67,7 @@ func (m *mergedIterator) initQueue() {
 				key:   it.Key(),
 				value: it.Value(),
 				index: i,
+				order: i,
 			})
 			i++
 		}
@@ -118,6 +119,7 @@ type item struct {
 	value []byte
 
 	index int
+	order int // position of the iterator in the input list(never changes)
 }
 
 // priorityQueue implements heap.Interface and holds Items.
@@ -128,7 +130,11 @@ func (pq priorityQueue) Len() int { return len(pq) }
 
 // Less compares key of item
 func (pq priorityQueue) Less(i, j int) bool {
-	return pq[i].key < pq[j].key
+	if pq[i].key != pq[j].key {
+		return pq[i].key < pq[j].key
+	}
+	// same key: keep the order of the input iterators(oldest file first)
+	return pq[i].order < pq[j].order
 }
 
 // Swap swaps the elements with indexes i and j.
